@@ -67,7 +67,9 @@ fn scalar(rng: &mut Rng, depth: u32) -> String {
 
 pub fn gen(rng: &mut Rng, _k: usize, _tier: &str) -> J {
     let d = 1 + rng.below(2) as u32;
-    let sql = match rng.below(8) {
+    let sql = match rng.below(9) {
+        8 => { let o = *rng.pick(&["0", "999", "1000", "1001", "5000", "1000000000000000000", "9223372036854775807"]); let l = *rng.pick(&["0", "1", "1000", "1001", "9223372036854775807"]);
+               match rng.below(3) { 0 => format!("SELECT m AS r FROM x ORDER BY r LIMIT {l} OFFSET {o}"), 1 => format!("SELECT count(*) AS n FROM (SELECT m AS r FROM x ORDER BY r LIMIT {l} OFFSET {o}) AS q"), _ => format!("SELECT m AS r FROM x ORDER BY r OFFSET {o}") } }
         0 | 1 => format!("SELECT {} AS r FROM x", scalar(rng, d)),
         2 => format!("SELECT {} AS r FROM x WHERE {} > {}", scalar(rng, d), scalar(rng, 1), scalar(rng, 1)),
         3 | 4 => { let agg = *rng.pick(&["sum", "avg", "min", "max", "count", "var", "stddev"]); format!("SELECT {agg}({}) AS r FROM x", scalar(rng, d)) }
@@ -82,7 +84,7 @@ pub fn gen(rng: &mut Rng, _k: usize, _tier: &str) -> J {
 
 fn shape(sql: &str) -> String {
     let mut v = vec![];
-    for (kw, n) in [(" / ", "div"), ("exp(", "exp"), ("ln(", "ln"), ("sqrt(", "sqrt"), ("pow(", "pow"), ("abs(", "abs"), ("CAST(", "cast"), (" * ", "mul"), ("var(", "var"), ("stddev(", "std"), ("avg(", "avg"), ("sum(", "sum"), ("JOIN", "join"), ("GROUP BY", "group")] { if sql.contains(kw) { v.push(n); } }
+    for (kw, n) in [(" / ", "div"), ("exp(", "exp"), ("ln(", "ln"), ("sqrt(", "sqrt"), ("pow(", "pow"), ("abs(", "abs"), ("CAST(", "cast"), (" * ", "mul"), ("var(", "var"), ("stddev(", "std"), ("avg(", "avg"), ("sum(", "sum"), ("JOIN", "join"), ("GROUP BY", "group"), ("OFFSET", "offset")] { if sql.contains(kw) { v.push(n); } }
     if v.is_empty() { "plain".into() } else { v[..v.len().min(3)].join("+") }
 }
 
